@@ -11,16 +11,16 @@ PROPS = {
                           [("core", D), ("core", R), ("block", D), ("chunk", D), ("chunk", R), ("place", D), ("place", R), ("scan", D), ("scan", R), ("entries", D)]),
                 assumptions=["memory accesses are observed through guard pages and debug assertions, not proved: a stray access that stays inside mapped memory and changes no result is invisible",
                              "NEON loads are checked on the generated model only (no aarch64 here)"]),
-    "C02": dict(runs=runs([("split", D), ("core", D)], [("split", D), ("core", D), ("block", D)])),
-    "C03": dict(runs=runs([("core", D), ("block", D), ("chunk", D), ("place", D)])),
-    "C04": dict(runs=runs([("core", D), ("block", D), ("entries", D)]),
+    "C02": dict(runs=runs([("split", D), ("split", R), ("core", D)], [("split", D), ("split", R), ("core", D), ("block", D)])),
+    "C03": dict(runs=runs([("core", D), ("core", R), ("block", D), ("chunk", D), ("place", D)])),
+    "C04": dict(runs=runs([("core", D), ("core", R), ("block", D), ("entries", D)]),
                 assumptions=["the static half (lifetimes; no safe program can keep a field past its buffer) is decided by rustc's borrow checker and is not claimed as proved"]),
-    "C05": dict(runs=runs([("core", D), ("block", D), ("utf8", D), ("place", D)])),
-    "C06": dict(runs=runs([("core", D), ("utf8", D), ("place", D)]), determining=True),
-    "C07": dict(runs=runs([("core", D), ("place", D)]), determining=True),
-    "C08": dict(runs=runs([("core", D), ("block", D), ("place", D)]), determining=True),
+    "C05": dict(runs=runs([("core", D), ("core", R), ("block", D), ("utf8", D), ("utf8", R), ("place", D)])),
+    "C06": dict(runs=runs([("core", D), ("core", R), ("utf8", D), ("utf8", R), ("place", D)]), determining=True),
+    "C07": dict(runs=runs([("core", D), ("core", R), ("place", D)]), determining=True),
+    "C08": dict(runs=runs([("core", D), ("core", R), ("block", D), ("place", D)]), determining=True),
     "C09": dict(runs=runs([("chunk", D), ("chunk", R)]), determining=True),
-    "C10": dict(runs=runs([("core", D), ("block", D)]), determining=True),
+    "C10": dict(runs=runs([("core", D), ("core", R), ("block", D)]), determining=True),
     "C11": dict(runs=runs([], [])),   # two-pass witness pipeline, see special_c11
     "C12": dict(runs=runs([("scan", D), ("swar", D), ("classes", D)], [("scan", D), ("scan", R), ("swar", D), ("classes", D)]), determining=True,
                 trusted=["lane semantics of the x86 intrinsics (validated against the real instructions by the scan family)",
@@ -28,11 +28,11 @@ PROPS = {
     "C13": dict(runs=runs([("place", D), ("place", R), ("scan", D), ("scan", R), ("chunk", D), ("chunk", R), ("core", D), ("core", R)]),
                 assumptions=["weak-memory behaviour of the relaxed atomic cache is modelled as atomic steps on one location",
                              "'every switch combination compiles' is observed by building, not proved"]),
-    "C14": dict(runs=runs([("block", D), ("core", D), ("place", D)]), determining=True),
-    "C15": dict(runs=runs([("cfgpair", D)])),
-    "C16": dict(runs=runs([("entries", D), ("hrel", D)])),
-    "C17": dict(runs=runs([("core", D), ("entries", D), ("caps", D)])),
-    "C18": dict(runs=runs([("hist", D)])),
+    "C14": dict(runs=runs([("block", D), ("block", R), ("core", D), ("place", D)]), determining=True),
+    "C15": dict(runs=runs([("cfgpair", D), ("cfgpair", R)])),
+    "C16": dict(runs=runs([("entries", D), ("entries", R), ("hrel", D)])),
+    "C17": dict(runs=runs([("core", D), ("entries", D), ("entries", R), ("caps", D)])),
+    "C18": dict(runs=runs([("hist", D), ("hist", R)])),
     "C20": dict(runs=runs([("core", D), ("block", D), ("chunk", D)]),
                 assumptions=["wall-clock time is not modelled; the claim is about counted cursor travel and block loads"]),
 }
